@@ -186,7 +186,15 @@ func newHost(cpuMap types.CPUMap, shareBase int, maxFragmentCores int) *host {
 }
 
 func (h *host) getCPUPlans(cpuRequest float64) []types.CPUMap {
+	// a request of no pieces at all, or of more cores than the host has, cannot be planned
+	// (the negated comparison also rejects NaN)
+	if !(cpuRequest > 0) || cpuRequest > float64(len(h.fullCores)+len(h.fragmentCores)) {
+		return []types.CPUMap{}
+	}
 	piecesRequest := int(cpuRequest * float64(h.shareBase))
+	if piecesRequest <= 0 {
+		return []types.CPUMap{}
+	}
 	full := piecesRequest / h.shareBase
 	fragment := piecesRequest % h.shareBase
 
